@@ -62,6 +62,7 @@ def generate(rng: random.Random, tier: str, seed: int) -> dict:
         # keys supplied by the run space are removed from --context
         sc["attempt"] = rng.choice([1, 1, 2, 3])
         sc["retry"] = rng.random() < 0.35        # a second launch with the SAME launch id and the next attempt number
+        sc["retry_same_attempt"] = sc["retry"] and rng.random() < 0.4    # ... or the operator just re-runs the same command: same id, SAME attempt
         sc["standalone_too"] = rng.random() < 0.35   # the same aggregator also sees a standalone run (its own file, no launch keys)
         if rng.random() < 0.5:
             sc["faults"] = [{"site": "executor_pre", "kind": "exception", "node": rng.randrange(nn), "run": rng.randrange(3)}]
@@ -93,7 +94,7 @@ def produce(sc: dict, w) -> list[dict]:
         # the retry: same launch id, next attempt, its own driver instance (sequence numbers restart) and output path
         harness.write_cli_config(base, "cfg2.yaml", trace=harness.trace_cfg(sc["mode"], sc["detail"], "retry"), run_space=rs)
         argv2 = ["run", "cfg2.yaml"] + argv[2:]
-        argv2[argv2.index("--run-space-attempt") + 1] = str(sc.get("attempt", 1) + 1)
+        argv2[argv2.index("--run-space-attempt") + 1] = str(sc.get("attempt", 1) + (0 if sc.get("retry_same_attempt") else 1))
         w.set_faults([])
         harness.run_cli(argv2)
     if sc.get("standalone_too"):
